@@ -77,7 +77,7 @@ def gen_universe(rnd, big=False):
     if rnd.random() < 0.1:
         # ids are values of any kind the user likes: text ids next to numbers (also twice)
         for k in rnd.sample(range(n), rnd.choice([1, 2, 3])):
-            tasks[k]['id'] = rnd.choice(['spec', 'a', 'spec', '7'])
+            tasks[k]['id'] = rnd.choice(['spec', '1', 'spec', '7'])       # '1' and '7' print like the numbers 1 and 7 and are different ids
     nw = rnd.choice([1, 1, 2, 2, 3])
     wbs = [({'title': f'W{k}'} if rnd.random() < 0.3 else {}) for k in range(nw)]
     return {'tasks': tasks, 'wbs': wbs}
